@@ -199,10 +199,14 @@ def build_policy(sc, seed, year, full, gate, setup, benign):
     for k, v in setup.items():
         if k == '_forms':
             forms = list(v)
+        elif k == '_fields':
+            pass
         else:
             fixed[k] = v
     if '1040.filing_status' not in fixed:
         fixed['1040.filing_status'] = rng.choice(sc.STATUS_MEMBERS[year])
+    if benign and '1040.number_dependents' not in fixed:
+        fixed['1040.number_dependents'] = '0'       # a benign return: nothing but the gate stands in the way
     if gate is not None:
         for k, v in (gate.get('requires') or {}).items():
             fixed[k] = v
@@ -214,17 +218,29 @@ def build_policy(sc, seed, year, full, gate, setup, benign):
     return pol, forms
 
 
-def run_one(sc, year, forms, pol):
+def run_one(sc, year, forms, pol, fields=()):
+    """one real solve with read logging; `fields` are requested like `habutax solve --field` would (for guarding
+    lines that nothing else demands)"""
+    from habutax import solver as hsolver
     log = ReadLog()
-    with logging_reads(log):
-        r = sc.run(year, forms, pol)
+    orig_solve = hsolver.Solver.solve
+    if fields:
+        def solve(self, form_names, field_names=[]):
+            return orig_solve(self, form_names, list(field_names) + list(fields))
+        hsolver.Solver.solve = solve
+    try:
+        with logging_reads(log):
+            r = sc.run(year, forms, pol)
+    finally:
+        hsolver.Solver.solve = orig_solve
     r['log'] = log
+    r['fields'] = list(fields)
     return r
 
 
 def replay_of(sc, r, sd, full):
-    return {'kind': 'scenario', 'year': r['year'], 'forms': r['forms'], 'inputs': sc.inputs_of(r),
-            'scenario_seed': sd, 'gate': full}
+    return {'kind': 'scenario', 'year': r['year'], 'forms': r['forms'], 'fields': r.get('fields', []),
+            'inputs': sc.inputs_of(r), 'scenario_seed': sd, 'gate': full}
 
 
 def run(seed, tier, years=YEARS, only=None):
@@ -244,7 +260,7 @@ def run(seed, tier, years=YEARS, only=None):
         gates = expand_gates(year, reviewed)
         if only:
             gates = [(f, g) for f, g in gates if f in only or g['input'] in only]
-        st = {full: {'scenarios': 0, 'read_declaring': 0, 'read_by_value': 0, 'blocked': 0, 'solved_with_gate': 0}
+        st = {full: {'scenarios': 0, 'read_declaring': 0, 'read_by_value': 0, 'blocked': 0, 'solved_with_gate': 0, 'aborted': {}}
               for full, _g in gates}
         stats[str(year)] = st
         all_gates = expand_gates(year, reviewed)
@@ -253,12 +269,15 @@ def run(seed, tier, years=YEARS, only=None):
             nonlocal checked, scenarios_run
             setup = setups.get(setup_name, {}) if setup_name else {}
             pol, forms = build_policy(sc, sd, year, full, gate, setup, benign)
-            r = run_one(sc, year, forms, pol)
+            fields = list(setup.get('_fields', [])) if setup else []
+            r = run_one(sc, year, forms, pol, fields)
             scenarios_run += 1
             if r['exception'] is not None:
                 dist['exception'] += 1
                 k = type(r['exception']).__name__
                 exc_kinds[k] = exc_kinds.get(k, 0) + 1
+                msg = f'{k}: {str(r["exception"])[:90]}'
+                st[full]['aborted'][msg] = st[full]['aborted'].get(msg, 0) + 1
             elif r['ok']:
                 dist['solved'] += 1
             else:
